@@ -52,7 +52,7 @@ FWD = ["exactsolve", "custom_exactsolve", "cg", "bicgstab", "gmres", "broyden1"]
 BCK = ["default", "exactsolve", "cg", "bicgstab", "gmres", "broyden1"]
 PLACEMENTS = ["dense_leaf", "dense_derived", "mf_leaf", "mf_leaf_mv", "mf_derived", "add_shared", "add_two",
               "matmul", "scale", "adj", "mf_unused", "jac_mod", "jac_fn", "add_dense", "matmul_dense", "sub_two", "view_two", "detach_two",
-              "scale_in_sum"]
+              "scale_in_sum", "const"]
 JACS = ("jac_mod", "jac_fn")
 HERM_PL = ("dense_derived", "mf_derived")
 LEAF_PL = ("dense_leaf", "mf_leaf", "mf_leaf_mv", "mf_unused")      # the operator holds the leaf tensor itself
@@ -272,7 +272,23 @@ def _lazy_classes():
                 return [prefix + "w", prefix + "c"]
             raise KeyError(methodname)
 
-    _CLS = {"OpUnused": OpUnused, "TanhMod": TanhMod, "OpPair": OpPair}
+    class OpConst(LinearOperator):
+        """an operator defined by constants only: it declares NO tensor parameter"""
+
+        def __init__(self, mat):
+            super().__init__(shape=mat.shape, is_hermitian=False, dtype=mat.dtype, device=mat.device)
+            self.mat = mat
+
+        def _mv(self, x):
+            return torch.matmul(self.mat, x.unsqueeze(-1)).squeeze(-1)
+
+        def _rmv(self, x):
+            return torch.matmul(self.mat.transpose(-2, -1).conj(), x.unsqueeze(-1)).squeeze(-1)
+
+        def _getparamnames(self, prefix=""):
+            return []
+
+    _CLS = {"OpConst": OpConst, "OpUnused": OpUnused, "TanhMod": TanhMod, "OpPair": OpPair}
     return _CLS
 
 
@@ -347,6 +363,11 @@ def build(cfg):
             else:
                 u = leaf("U", randn((n,), dt, g), "A")
                 mkA = lambda: cls["OpUnused"](p, u)
+        elif place == "const":
+            # no declared parameter at all: only B (E, M) can be differentiated
+            a0c = a0.detach().clone()
+            adense = lambda: a0c
+            mkA = lambda: cls["OpConst"](a0c)
         elif place == "add_shared":
             p = leaf("P", 0.5 * a0, "A")
             adense = lambda: 2.0 * p
